@@ -246,30 +246,57 @@ def pipeline(x, upto="sim"):
     import sim_services
 
     res = {}
+    touched = []          # arguments a stage modified (C20: "None of them modifies the ... objects passed in")
+
+    def unchanged(name, before, after):
+        if before != after:
+            touched.append(name)
+
+    res["touched"] = touched
+    desc_before = copy.deepcopy(x["desc"])
     try:
         proc = processor_utils.load_proc_desc(x["desc"])
     except Exception as e:  # noqa: BLE001
+        unchanged("description (rejected)", desc_before, x["desc"])
         res["proc"] = err_form(e)
         return res
+    unchanged("description", desc_before, x["desc"])
     res["proc"] = canon_proc(proc)
     res["proc_exact"] = comp_sim.proc_json(proc)
+    isa_arg = [tuple(p) for p in x["isa"]]
+    isa_before = list(isa_arg)
+    abilities = processor_utils.get_abilities(proc)
+    abilities_before = set(abilities)
     try:
-        isa = processor_utils.load_isa([tuple(p) for p in x["isa"]], processor_utils.get_abilities(proc))
+        isa = processor_utils.load_isa(isa_arg, abilities)
     except Exception as e:  # noqa: BLE001
         res["isa"] = err_form(e)
         return res
+    finally:
+        unchanged("instruction-set table", isa_before, isa_arg)
+        unchanged("capability set", abilities_before, set(abilities))
+        unchanged("processor (after get_abilities/load_isa)", res["proc_exact"], comp_sim.proc_json(proc))
     res["isa"] = sorted([k, v] for k, v in isa.items())
+    lines_arg = [ln + "\n" for ln in x["lines"]]
+    lines_before = list(lines_arg)
     try:
-        prog = program_utils.read_program([ln + "\n" for ln in x["lines"]])
+        prog = program_utils.read_program(lines_arg)
     except Exception as e:  # noqa: BLE001
         res["prog"] = err_form(e)
         return res
+    finally:
+        unchanged("program text", lines_before, lines_arg)
     res["parsed"] = [[list(i.sources), i.destination, i.name, i.line] for i in prog]
+    prog_before = list(prog)
+    isa_dict_before = dict(isa)
     try:
         comp = program_utils.compile_program(prog, isa)
     except Exception as e:  # noqa: BLE001
         res["prog"] = err_form(e)
         return res
+    finally:
+        unchanged("parsed program", prog_before, list(prog))
+        unchanged("instruction set", isa_dict_before, dict(isa))
     res["prog"] = comp_sim.prog_json(comp)
     # instructions built DIRECTLY (no parser in front normalising the spelling): sources that differ only in case
     try:
@@ -287,7 +314,10 @@ def pipeline(x, upto="sim"):
         res["direct"] = err_form(e)
     if upto == "compile":
         return res
+    comp_before = list(comp)
     impl = comp_sim.run_impl(proc, comp)
+    unchanged("compiled program", comp_before, list(comp))
+    unchanged("processor (after simulate)", res["proc_exact"], comp_sim.proc_json(proc))
     if "table" in impl:
         impl["table"] = [sorted([u, sorted(l)] for u, l in row) for row in impl["table"]]
     res["sim"] = impl
@@ -469,6 +499,8 @@ def evaluate(x, do_cli=True) -> dict:
     o20 = None
     if not args_unchanged:
         o20 = "the description / instruction set / program passed in was modified by the call"
+    if o20 is None and base.get("touched"):
+        o20 = "a call modified an object passed in: " + ", ".join(base["touched"])
     again = pipeline(x)
     if o20 is None and c20_view(again) != c20_view(base):
         o20 = "a repeated call in the same process returned a different result"
